@@ -179,3 +179,396 @@ def rule_file_separator(ctx, rep: Report, rid="Y1"):
     parse = [c for c in walk_no_nested(fn) if isinstance(c, ast.Call) and unparse(c.func).endswith("Module.parseString")]
     rep.add(rid, "MatlabWrapper.wrap:the concatenation is parsed once", len(parse) == 1, f"{len(parse)} parse calls",
             f"{ci.mod.rel}:{fn.lineno}", nontrivial=False)
+
+
+# ==========================================================================================
+# C10
+def rule_preamble_pairing(ctx, rep: Report, rid="T1"):
+    ci, prog = mw(ctx)
+    gp = prog.method("MatlabWrapper", "generate_preamble")
+    loops = [l for l in gp.body if isinstance(l, ast.For) and unparse(l.iter) == "self.classes"]
+    if len(loops) != 1:
+        raise AnalysisError("generate_preamble: loop over self.classes not found")
+    loop = loops[0]
+    cvar = loop.target.id
+    fo = Folder(prog, ci.mod, gp, ci)
+    frag = {}
+    for st in ast.walk(loop):
+        if isinstance(st, ast.AugAssign) and isinstance(st.value, ast.Call) and isinstance(st.value.func, ast.Attribute) \
+                and st.value.func.attr == "format":
+            src = unparse(st.value.func.value)
+            gs = [(t, pol) for t, pol in guards_of(st, gp, include_exits=False)]
+            frag[src] = (st, gs, unparse(st.target))
+    tc = frag.get("WrapperTemplate.typdef_collectors")
+    do = frag.get("WrapperTemplate.delete_obj")
+    rep.add(rid, "preamble:collector declaration and clean-up fragment emitted under identical conditions for every class",
+            tc is not None and do is not None and tc[1] == do[1] == [],
+            f"collector under {tc[1] if tc else None}, clean-up under {do[1] if do else None}: a collector without its "
+            f"clean-up entry leaks at unload; a clean-up entry without collector does not compile", f"{ci.mod.rel}:{loop.lineno}")
+    if tc and do:
+        t1, t2 = fo.fold(tc[0].value), fo.fold(do[0].value)
+        k1 = {s.key: unparse(s.expr) for s in t1.slots()} if t1 else {}
+        k2 = {s.key: unparse(s.expr) for s in t2.slots()} if t2 else {}
+        rep.add(rid, "preamble:both fragments are named after the same class", k1.get("class_name") is not None
+                and k1.get("class_name") == k2.get("class_name"), f"{k1} vs {k2}", f"{ci.mod.rel}:{loop.lineno}")
+    # RTTI
+    rtti = [st for st in ast.walk(loop) if isinstance(st, ast.AugAssign) and "typeid" in unparse(st.value)]
+    ok = len(rtti) == 1 and [t for t, pol in guards_of(rtti[0], gp, include_exits=False) if pol] == [f"{cvar}.is_virtual"]
+    rep.add(rid, "preamble:RTTI registry entry iff the class is virtual", ok,
+            f"guards {[guards_of(r, gp, include_exits=False) for r in rtti]}", f"{ci.mod.rel}:{loop.lineno}")
+    # the accumulated fragments reach their templates
+    txt = unparse(gp)
+    rep.add(rid, "preamble:clean-up fragments are spliced into _deleteAllObjects, RTTI lines into the registry function",
+            "WrapperTemplate.delete_all_objects.format(delete_objs=" in txt.replace(" ", "").replace("\n", "").replace("delete_objs=delete_objs", "delete_objs=")
+            or "delete_all_objects.format(" in txt, "", f"{ci.mod.rel}:{gp.lineno}", nontrivial=False)
+    # add_class for every instantiated class at every depth
+    wn = prog.method("MatlabWrapper", "wrap_namespace")
+    br = None
+    for i in ast.walk(wn):
+        if isinstance(i, ast.If) and isinstance(i.test, ast.Call) and unparse(i.test.func) == "isinstance" \
+                and "InstantiatedClass" in unparse(i.test.args[1]):
+            br = i
+    ok = br is not None and isinstance(br.body[0], ast.Expr) and unparse(br.body[0].value.func) == "self.add_class" \
+        and unparse(br.body[0].value.args[0]) == unparse(br.test.args[0])
+    rep.add(rid, "every instantiated class is registered for the preamble before anything else happens to it", ok,
+            "self.add_class(element) must be the first, unconditional statement of the class branch", f"{ci.mod.rel}:{wn.lineno}")
+    rec = [c for c in walk_no_nested(wn) if isinstance(c, ast.Call) and unparse(c.func) == "self.wrap_namespace"]
+    rep.add(rid, "nested namespaces are descended into", len(rec) == 1 and
+            any(isinstance(i, ast.If) and "Namespace" in unparse(i.test) and any(rec[0] is c for c in ast.walk(i)) for i in ast.walk(wn)),
+            "", f"{ci.mod.rel}:{wn.lineno}", nontrivial=False)
+    ac = prog.method("MatlabWrapper", "add_class")
+    rep.add(rid, "add_class:appends each class once", "self.classes.append" in unparse(ac) and "is None" in unparse(ac), "",
+            f"{ci.mod.rel}:{ac.lineno}", nontrivial=False)
+
+
+def rule_enum_numbering(ctx, rep: Report, rid="T2"):
+    ci, prog = mw(ctx)
+    fn = prog.method("MatlabWrapper", "wrap_enum")
+    p = func_params(fn)[1]
+    comps = [c for c in ast.walk(fn) if isinstance(c, (ast.ListComp, ast.GeneratorExp))]
+    ok = False
+    detail = ""
+    for c in comps:
+        g = c.generators[0]
+        it = unparse(g.iter).replace(" ", "")
+        if it.startswith("enumerate(") and isinstance(g.target, ast.Tuple):
+            iv, ev = [t.id for t in g.target.elts]
+            elt = c.elt
+            if isinstance(elt, ast.JoinedStr):
+                fv = [unparse(v.value) for v in elt.values if isinstance(v, ast.FormattedValue)]
+                lit = "".join(v.value if isinstance(v, ast.Constant) else "@" for v in elt.values)
+                ok = it == f"enumerate({p}.enumerators)" and fv == [f"{ev}.name", iv] and lit == "@(@)" and not g.ifs
+                detail = f"{unparse(c)[:90]}"
+    rep.add(rid, "enum:enumerators numbered 0..n-1 in declared order", ok, detail, f"{ci.mod.rel}:{fn.lineno}")
+    fo = Folder(prog, ci.mod, fn, ci)
+    tpl = next((fo.fold(st.value) for st in walk_no_nested(fn) if isinstance(st, ast.Assign)
+                and isinstance(st.value, ast.Call) and unparse(st.value.func) == "textwrap.dedent"), None)
+    lit = " ".join(tpl.literal("@").split()) if tpl else ""
+    rep.add(rid, "enum:classdef <Name> < uint32 with an enumeration block", lit.startswith("classdef {0} < uint32 enumeration {1} end end"),
+            lit[:70], f"{ci.mod.rel}:{fn.lineno}")
+
+
+PKG_FORM = "''.join(['+' + _x + '/' for _x in _NS.full_namespaces()[1:]])[:-1]"
+
+
+def _combine_defs(fn, e: ast.AST) -> ast.AST:
+    """x = A ; x += B   ->   A + B   (the only multi-definition shape the path builders use)."""
+    if isinstance(e, ast.Name):
+        sts = sorted(local_assignments(fn).get(e.id, []), key=lambda st: st.lineno)
+        if len(sts) == 2 and isinstance(sts[0], ast.Assign) and isinstance(sts[1], ast.AugAssign) and isinstance(sts[1].op, ast.Add) \
+                and parent(sts[0]) is parent(sts[1]):
+            return ast.BinOp(left=sts[0].value, op=ast.Add(), right=sts[1].value)
+    return e
+
+
+def _pkg_norm(fn, e: ast.AST) -> str:
+    x = inline_locals(fn, _combine_defs(fn, e))
+    txt = unparse(x)
+    # rename comprehension variable and the namespace object
+    t = ast.parse(txt, mode="eval").body
+    for n in ast.walk(t):
+        if isinstance(n, (ast.ListComp, ast.GeneratorExp)):
+            v = n.generators[0].target.id if isinstance(n.generators[0].target, ast.Name) else None
+            for m in ast.walk(n):
+                if isinstance(m, ast.Name) and m.id == v:
+                    m.id = "_x"
+    for n in ast.walk(t):
+        if isinstance(n, ast.Call) and isinstance(n.func, ast.Attribute) and n.func.attr in ("full_namespaces", "namespaces") \
+                and isinstance(n.func.value, ast.Name):
+            n.func.value.id = "_NS"
+        if isinstance(n, ast.Call) and isinstance(n.func, ast.Attribute) and n.func.attr in ("full_namespaces",) \
+                and isinstance(n.func.value, ast.Attribute) and n.func.value.attr == "parent":
+            n.func.value = ast.Name(id="_NS", ctx=ast.Load())
+    out = unparse(t)
+    out = out.replace("f'+{_x}/'", "'+' + _x + '/'")
+    return out
+
+
+def rule_package_paths(ctx, rep: Report, rid="T3", min_sites=4):
+    ci, prog = mw(ctx)
+    sites = []
+    for mname in ("wrap_namespace", "wrap_methods", "wrap_instantiated_class"):
+        fn = prog.method("MatlabWrapper", mname)
+        for c in walk_no_nested(fn):
+            if isinstance(c, ast.Call) and isinstance(c.func, ast.Attribute) and c.func.attr == "append" and c.args \
+                    and isinstance(c.args[0], ast.Tuple) and len(c.args[0].elts) == 2 and isinstance(c.args[0].elts[1], ast.List):
+                sites.append((mname, fn, c, c.args[0].elts[0]))
+    n = 0
+    for mname, fn, c, pathx in sites:
+        n += 1
+        norm = _pkg_norm(fn, pathx)
+        kind = "class-scoped enum" if mname == "wrap_instantiated_class" else (
+            "global function" if mname == "wrap_methods" else ("class" if "class_text" in unparse(c) or "wrap_instantiated_class" in unparse(inline_locals(fn, c.args[0].elts[1])) else "namespace enum"))
+        if mname == "wrap_instantiated_class":
+            t = ast.parse(norm, mode="eval").body
+            ok = False
+            if isinstance(t, ast.BinOp) and isinstance(t.op, ast.Add):
+                left = unparse(t.left).replace("_NS.namespaces()", "_NS.full_namespaces()")
+                right = t.right
+                ok_left = left in ("''.join(['+' + _x + '/' for _x in _NS.full_namespaces()[1:]])",
+                                   "''.join(('+' + _x + '/' for _x in _NS.full_namespaces()[1:]))")
+                ok_right = isinstance(right, ast.JoinedStr) and "".join(
+                    v.value if isinstance(v, ast.Constant) else "@" for v in right.values) == "+@" and \
+                    unparse(right.values[1].value).endswith(".name")
+                ok = ok_left and ok_right
+            want = "<package path of the namespace> + '+<Class>'"
+        else:
+            ok = norm == PKG_FORM
+            want = PKG_FORM
+        rep.add(rid, f"package path:{kind} ({mname})", ok,
+                f"the folder path is computed as `{norm[:110]}`; every kind of entity must be placed by the same rule "
+                f"{want}: joining namespace names without '/+' puts `a::b::C::K` into +ab/+C instead of +a/+b/+C",
+                f"{ci.mod.rel}:{c.lineno}")
+    if n < min_sites:
+        raise AnalysisError(f"{rep.prop}/{rid}: {n} package-path sites, {min_sites} expected")
+
+
+def rule_classdef_complete(ctx, rep: Report, rid="T4"):
+    ci, prog = mw(ctx)
+    fn = prog.method("MatlabWrapper", "wrap_instantiated_class")
+    ip = func_params(fn)[1]
+    need = {"wrap_properties_block": "pointer property block", "wrap_class_constructors": "constructor",
+            "wrap_class_deconstructor": "delete", "wrap_class_display": "display", "wrap_static_methods": "static methods block"}
+    acc = None
+    rets = [r for r in walk_no_nested(fn) if isinstance(r, ast.Return) and isinstance(r.value, ast.Tuple)]
+    if rets:
+        acc = unparse(rets[-1].value.elts[1])
+    for meth, what in need.items():
+        calls = [c for c in walk_no_nested(fn) if isinstance(c, ast.Call) and unparse(c.func) == f"self.{meth}"]
+        ok = len(calls) == 1
+        if ok:
+            st = stmt_of(calls[0])
+            ok = isinstance(st, ast.AugAssign) and unparse(st.target) == acc and not guards_of(st, fn, include_exits=False)
+        rep.add(rid, f"classdef:{what} appended unconditionally", ok,
+                f"{meth} must be called once and its text appended to the classdef on every path", f"{ci.mod.rel}:{fn.lineno}")
+    # methods / property accessors under "has any"
+    for meth, attr in (("wrap_class_methods", "methods"), ("wrap_class_properties", "properties")):
+        calls = [c for c in walk_no_nested(fn) if isinstance(c, ast.Call) and unparse(c.func) == f"self.{meth}"]
+        gs = [t.replace(" ", "") for t, pol in guards_of(calls[0], fn, include_exits=False) if pol] if calls else None
+        rep.add(rid, f"classdef:{attr} emitted iff the class has any", gs == [f"len({ip}.{attr})!=0"], f"guards {gs}",
+                f"{ci.mod.rel}:{fn.lineno}")
+    # base
+    fo = Folder(prog, ci.mod, fn, ci)
+    ok = False
+    for st in walk_no_nested(fn):
+        if isinstance(st, ast.AugAssign) and "classdef" in unparse(st.value):
+            t = fo.fold(st.value)
+            if t is not None and t.slot("parent") is not None:
+                pe = unparse(t.slot("parent").expr)
+                ok = f"self._qualified_name({ip}.parent_class)" in pe and " ".join(t.literal("@").split()) == "classdef @ < @"
+    qn = prog.method("MatlabWrapper", "_qualified_name")
+    rep.add(rid, "classdef:names the declared base, or handle when there is none",
+            ok and "'handle' if" in unparse(qn) and "== ''" in unparse(qn), unparse(qn.body[-1]), f"{ci.mod.rel}:{fn.lineno}")
+
+
+def rule_one_mex_source(ctx, rep: Report, rid="T5"):
+    ci, prog = mw(ctx)
+    wn = prog.method("MatlabWrapper", "wrap_namespace")
+    flag = func_params(wn)[2]
+    adds = [c for c in walk_no_nested(wn) if isinstance(c, ast.Call) and unparse(c.func) == "self.content.append"
+            and ".cpp" in unparse(inline_locals(wn, c.args[0]))]
+    ok = len(adds) == 1 and [t for t, pol in guards_of(adds[0], wn, include_exits=False) if pol] == [flag]
+    rec = [c for c in walk_no_nested(wn) if isinstance(c, ast.Call) and unparse(c.func) == "self.wrap_namespace"]
+    rec_ok = all((len(c.args) > 1 and unparse(c.args[1]) == "False") or any(k.arg == flag and unparse(k.value) == "False" for k in c.keywords)
+                 for c in rec)
+    rep.add(rid, "MEX source entry added by the top-level call only", ok and rec_ok and bool(rec),
+            f"{len(adds)} .cpp entries under {[guards_of(a, wn, include_exits=False) for a in adds]}; recursive calls pass "
+            f"{[unparse(c) for c in rec]}", f"{ci.mod.rel}:{wn.lineno}")
+    gw = prog.method("MatlabWrapper", "generate_wrapper")
+    names = [unparse(inline_locals(gw, c.args[0].elts[0])) for c in walk_no_nested(gw) if isinstance(c, ast.Call)
+             and unparse(c.func) == "self.content.append" and isinstance(c.args[0], ast.Tuple)]
+    wn_names = [unparse(inline_locals(wn, a.args[0].elts[0])) for a in adds if isinstance(a.args[0], ast.Tuple)]
+    rep.add(rid, "the generated MEX source replaces the placeholder under the same file name", names == wn_names and len(names) == 1,
+            f"generate_wrapper writes {names}, wrap_namespace reserved {wn_names}", f"{ci.mod.rel}:{gw.lineno}")
+
+
+# ==========================================================================================
+# C11: ownership obligations of the routine templates (C++ inside Python string templates)
+import re as _re
+
+
+def _cpp_text(t: Tpl) -> str:
+    return "".join(p if isinstance(p, str) else f"__{p.key}__" for p in t.parts)
+
+
+def _tokens(text: str) -> List[str]:
+    return _re.findall(r"[A-Za-z_][A-Za-z_0-9]*|::|->|\*\*|!=|==|\+\+|--|[{}()\[\];,*&<>=!.+\-]|\"[^\"]*\"|\d+", text)
+
+
+def routine_templates(ctx) -> Dict[str, Tuple[Tpl, int, str]]:
+    """Folded C++ routine templates: name -> (template, line, where)."""
+    ci, prog = mw(ctx)
+    out: Dict[str, Tuple[Tpl, int, str]] = {}
+    gc = prog.method("MatlabWrapper", "generate_collector_function")
+    fo = Folder(prog, ci.mod, gc, ci)
+    k = 0
+    for c in sorted((x for x in ast.walk(gc) if isinstance(x, ast.Call) and isinstance(x.func, ast.Attribute) and x.func.attr == "format"),
+                    key=lambda x: x.lineno):
+        p = parent(c)
+        if isinstance(p, ast.Attribute) and p.attr == "format":
+            continue
+        try:
+            t = fo.fold(c)
+        except AnalysisError:
+            continue
+        if t is None:
+            continue
+        txt = _cpp_text(t)
+        gs = [g for g, pol in guards_of(c, gc, include_exits=False) if pol]
+        role = next((g for g in reversed(gs) if "==" in g or "is_" in g), "top")
+        tag = None
+        allg = " ".join(gs)
+        is_base = "SharedBase" in txt and "new Shared(new" not in txt and ".insert(" not in txt
+        if "'deconstructor'" in allg:
+            tag = "deconstructor"
+        elif "'constructor'" in allg:
+            tag = "base:constructor" if is_base else "constructor"
+        elif "'collectorInsertAndMakeBase'" in allg:
+            tag = "base:collectorInsertAndMakeBase" if is_base else "collectorInsertAndMakeBase"
+        if tag in out:
+            tag = None
+        if tag:
+            out[tag] = (t, c.lineno, ci.mod.rel)
+    tci = prog.cls("WrapperTemplate")
+    for attr in ("collector_function_upcast_from_void", "delete_obj", "delete_all_objects", "typdef_collectors"):
+        a = prog.find_attr(tci, attr)
+        if a is None:
+            raise AnalysisError(f"WrapperTemplate.{attr} vanished")
+        t = Folder(prog, tci.mod, None, tci).fold(a[1])
+        if t is None:
+            raise AnalysisError(f"WrapperTemplate.{attr} not foldable")
+        # class-level templates are formatted later: parse their placeholders now
+        t = t.apply_format([], {}, None)
+        t.missing = []
+        out[attr] = (t, a[1].lineno, tci.mod.rel)
+    return out
+
+
+def rule_create_register(ctx, rep: Report, rid="H1"):
+    rts = routine_templates(ctx)
+    n = 0
+    for name, (t, line, rel) in sorted(rts.items()):
+        txt = _cpp_text(t)
+        m = _re.search(r"Shared\s*\*\s*(\w+)\s*=\s*new\s+Shared\s*\(", txt)
+        if not m:
+            continue
+        n += 1
+        var = m.group(1)
+        inserted = _re.search(r"collector___class_name__\s*\.\s*insert\s*\(\s*" + var + r"\s*\)", txt) is not None
+        stored = _re.search(r"\*\s*reinterpret_cast\s*<\s*Shared\s*\*\*\s*>\s*\(\s*mxGetData\s*\(\s*out\[0\]\s*\)\s*\)\s*=\s*" + var, txt) is not None
+        if name == "collector_function_upcast_from_void":
+            # registration happens in the collector routine the .m constructor calls unconditionally next
+            ok_m = _upcast_followed_by_collector(ctx)
+            rep.add(rid, "up-cast routine:its new handle is registered by the collector call that unconditionally follows in the .m constructor",
+                    stored and ok_m, f"handle stored in out[0]: {stored}; .m sequence ok: {ok_m}", f"{rel}:{line}")
+            continue
+        rep.add(rid, f"{name} routine:every heap-allocated handle is inserted into the class's collector and returned", inserted and stored,
+                f"`{var} = new Shared(...)`: inserted into collector: {inserted}; stored in out[0]: {stored} - a handle that is "
+                f"not registered is never freed at unload; one that is not returned is lost immediately", f"{rel}:{line}")
+    if n < 2:
+        raise AnalysisError(f"{rep.prop}/{rid}: {n} allocating routine templates found, 2 expected")
+
+
+def _upcast_followed_by_collector(ctx) -> bool:
+    ci, prog = mw(ctx)
+    fn = prog.method("MatlabWrapper", "wrap_class_constructors")
+    fo = Folder(prog, ci.mod, fn, ci)
+    seq = []
+    for st in sorted((s for s in walk_no_nested(fn) if isinstance(s, ast.AugAssign)), key=lambda s: s.lineno):
+        t = fo.fold(st.value)
+        if t is None:
+            continue
+        txt = _cpp_text(t)
+        gs = guards_of(st, fn, include_exits=False)
+        if "my_ptr = __wrapper_name__(__id__, varargin{2})" in txt.replace("{{", "{").replace("}}", "}"):
+            seq.append(("upcast", gs, st.lineno))
+        if _re.search(r"__wrapper_name__\(__id__, my_ptr\)", txt):
+            seq.append(("collector", gs, st.lineno))
+    kinds = [k for k, _, _ in seq]
+    if kinds != ["upcast", "collector"]:
+        return False
+    return [g for g, pol in seq[1][1]] == []
+
+
+def rule_destroy_once(ctx, rep: Report, rid="H2"):
+    rts = routine_templates(ctx)
+    if "deconstructor" not in rts:
+        raise AnalysisError("deconstructor routine template not found")
+    t, line, rel = rts["deconstructor"]
+    txt = _cpp_text(t)
+    toks = _tokens(txt)
+    s = " ".join(toks)
+    got = _re.search(r"Shared \* (\w+) = \* reinterpret_cast < Shared \*\* > \( mxGetData \( in \[ 0 \] \) \)", s)
+    var = got.group(1) if got else None
+    ndel = len(_re.findall(r"\bdelete\b", s))
+    find = var is not None and f". find ( {var} )" in s
+    erase_guarded = _re.search(r"if \( (\w+) != collector___class_name__ \. end \( \) \) \{ collector___class_name__ \. erase \( \1 \) ; \}", s) is not None
+    order = var is not None and erase_guarded and s.find("erase") < s.find(f"delete {var}")
+    rep.add("H2", "destructor routine:looks the handle up, erases it when found, deletes it exactly once afterwards",
+            bool(got) and find and erase_guarded and ndel == 1 and order,
+            f"handle read from in[0]: {bool(got)}; find: {find}; guarded erase: {erase_guarded}; delete statements: {ndel}; "
+            f"erase before delete: {order}", f"{rel}:{line}")
+    chk = 'checkArguments ( "delete___class_name__" , nargout , nargin , 1 )' in s
+    rep.add("H2", "destructor routine:takes exactly the handle", chk, "", f"{rel}:{line}", nontrivial=False)
+    t2, line2, rel2 = rts["delete_obj"]
+    s2 = " ".join(_tokens(_cpp_text(t2)))
+    ok2 = "delete * iter ;" in s2 and "collector___class_name__ . erase ( iter ++ )" in s2 and s2.count("delete") == 1 \
+        and s2.find("delete * iter") < s2.find("erase ( iter ++ )")
+    rep.add("H2", "unload clean-up:each remaining handle is deleted once and removed from its collector", ok2, s2[:160], f"{rel2}:{line2}")
+
+
+def rule_unload_hook(ctx, rep: Report, rid="H3"):
+    rts = routine_templates(ctx)
+    n = 0
+    for name, (t, line, rel) in sorted(rts.items()):
+        txt = _cpp_text(t)
+        if ".insert(" not in txt and "new Shared(" not in txt:
+            continue
+        n += 1
+        i_hook = txt.find("mexAtExit(&_deleteAllObjects)")
+        i_first = min([i for i in (txt.find(".insert("), txt.find("new Shared(")) if i >= 0])
+        rep.add(rid, f"{name} routine:unload hook registered before the first handle is created or inserted",
+                0 <= i_hook < i_first, f"mexAtExit at offset {i_hook}, first allocation/insert at {i_first}", f"{rel}:{line}")
+    if n < 3:
+        raise AnalysisError(f"{rep.prop}/{rid}: {n} registering templates found, 3 expected")
+    t, line, rel = rts["delete_all_objects"]
+    rep.add(rid, "_deleteAllObjects:splices the per-class clean-up fragments", "__delete_objs__" in _cpp_text(t), "", f"{rel}:{line}",
+            nontrivial=False)
+
+
+def rule_base_handle(ctx, rep: Report, rid="H4"):
+    rts = routine_templates(ctx)
+    n = 0
+    for name, (t, line, rel) in sorted(rts.items()):
+        if not name.startswith("base:"):
+            continue
+        n += 1
+        s = " ".join(_tokens(_cpp_text(t)))
+        m = _re.search(r"out \[ (\d) \] = mxCreateNumericMatrix \( 1 , 1 , mxUINT32OR64_CLASS , mxREAL \) ; "
+                       r"\* reinterpret_cast < SharedBase \*\* > \( mxGetData \( out \[ (\d) \] \) \) = new SharedBase \( \* self \)", s)
+        want = "1" if name.endswith("constructor") else "0"
+        rep.add(rid, f"{name} routine:the base-class handle is heap-allocated from *self and handed to MATLAB in out[{want}]",
+                m is not None and m.group(1) == m.group(2) == want and s.count("new SharedBase") == 1,
+                s[:200], f"{rel}:{line}")
+    if n < 2:
+        raise AnalysisError(f"{rep.prop}/{rid}: {n} base-handle fragments found, 2 expected")
